@@ -135,6 +135,11 @@ def encodeString (s : MsgState) (v : Bytes) : Bytes :=
 def setGenHeader (s : MsgState) (key : Bytes) (values : List Bytes) : MsgState :=
   { s with gen := assocSet s.gen key (values.map (encodeString s)) }
 
+/-- Msg.RequestMDNTo: the address strings (net/mail's rendering, display name already RFC 2047
+    encoded) are stored as they are, not passed through encodeString -/
+def setGenRaw (s : MsgState) (key : Bytes) (values : List Bytes) : MsgState :=
+  { s with gen := assocSet s.gen key values }
+
 def setPreformatted (s : MsgState) (key value : Bytes) : MsgState :=
   { s with preform := assocSet s.preform key value }
 
